@@ -239,6 +239,19 @@ def _rows_once(case, acc, tree, labels, cls):
     pos = list(RenderTree(start, style, childiter, maxlevel))
     if [(r.pre, r.fill, id(r.node)) for r in pos] != [(r.pre, r.fill, id(r.node)) for r in got]:
         raise Violation("positional-arguments", "RenderTree(node, style, childiter, maxlevel) differs from the keyword form")
+    # two iterations of the SAME RenderTree object that overlap: one is started, another one runs to its end (also through
+    # str() and by_attr()), then the first one is resumed
+    want_rows = [(r.pre, r.fill, id(r.node)) for r in got]
+    for k in sorted({1, len(got) // 2, max(len(got) - 1, 0)}):
+        if not 0 < k < len(got):
+            continue
+        first = iter(rt)
+        head = [next(first) for _ in range(k)]
+        middle = list(rt)
+        str(rt)
+        rest = list(first)
+        if [(r.pre, r.fill, id(r.node)) for r in head + rest] != want_rows or [(r.pre, r.fill, id(r.node)) for r in middle] != want_rows:
+            raise Violation("overlapping-iterations", "rows differ when one iteration of a RenderTree object is resumed after another iteration of the same object ran (first %d rows taken before)" % k)
     # second iteration gives the same rows (RenderTree is re-iterable)
     again = list(rt)
     if [(r.pre, r.fill, id(r.node)) for r in again] != [(r.pre, r.fill, id(r.node)) for r in got]:
